@@ -2,7 +2,7 @@ use rand::seq::SliceRandom;
 use std::fmt;
 use std::str::FromStr;
 
-#[derive(Clone, Copy, PartialEq, Debug, Eq, PartialOrd, Ord)]
+#[derive(Clone, Copy, PartialEq, Debug, Eq, PartialOrd, Ord, Hash)]
 pub enum Color {
     Black = 0,
     White = 1,
